@@ -2569,6 +2569,10 @@ def obj_fields : List String :=
 def obj_ptr_methods : List String :=
   ["Score", "Set"]
 
+/-- what each pointer-receiver method does with its receiver: writes / takes-address / passes-pointer / aliases / returns-pointer / calls:M, or reads-only -/
+def obj_ptr_effects : List String :=
+  ["Score:reads-only", "Set:writes"]
+
 /-- `init` functions of the package (file:init) -/
 def pkg_inits : List String :=
   []
@@ -2587,6 +2591,14 @@ def pkg_writes : List String :=
 
 /-- function:variable.method for every method call on a package-level variable; function:go for goroutine starts -/
 def pkg_calls : List String :=
+  []
+
+/-- sync.Pool variables and what their `New` makes -/
+def pool_new : List String :=
+  []
+
+/-- every Get (with the canonical name of the variable that receives it) and Put (with what is handed back), in source order -/
+def pool_uses : List String :=
   []
 
 /-- function:unsafe.X for every use of package unsafe -/
